@@ -5,7 +5,8 @@
    aliasing is decided by the correspondence (all five aliasing patterns). *)
 From Coq Require Import ZArith List.
 From Verif Require Import Lib.Params Lib.Words Lib.NumberTheory Model.FfgLimbs
-  Proofs.FfgArith Proofs.FfgMont Proofs.FfgOps.
+  Proofs.FfgArith Proofs.FfgMont Proofs.FfgOps Proofs.FfgRoutinesEq.
+From Verif Require Gen.FfgRoutines.
 Local Open Scope Z_scope.
 
 Theorem C09_add : forall x y, canon x -> canon y ->
@@ -70,6 +71,13 @@ Proof. exact mval_inj. Qed.
 Theorem C09_constants : qg = pg /\ modulus = pg.
 Proof. exact (conj qg_eq modulus_eq). Qed.
 
+(* TRANSLATOR TIE: the Gallina regenerated from ffg/element.go at every run
+   (tools/limbgen -> Gen/FfgRoutines.v) equals the hand-written model *)
+Theorem C09_model_is_the_source :
+  ((forall x y, FfgRoutines.mulGeneric x y = mulGeneric x y) /\ (forall x y, FfgRoutines.addGeneric x y = addGeneric x y) /\ (forall z c, FfgRoutines.mulByConstant z c = mulByConstant z c)).
+Proof. exact (conj gen_mulGeneric_eq (conj gen_addGeneric_eq gen_mulByConstant_eq)). Qed.
+
+Print Assumptions C09_model_is_the_source.
 Print Assumptions C09_mul.
 Print Assumptions C09_add.
 Print Assumptions C09_inverse.
